@@ -259,6 +259,9 @@ type c18ValCase struct {
 	// Binder (kind user): class and Order of the user processor that binds the user-defined
 	// configuration tag - always one that runs before the built-in validation
 	Binder string `json:"binder,omitempty"`
+	// Ptr (kinds var, expr): the field is a pointer to the scalar; the validator is asked about the
+	// pointer the field holds (nil when nothing was bound), as the library defines it
+	Ptr bool `json:"pointer_field,omitempty"`
 }
 
 // user-defined configuration tag `cfg:"<key>,validate=..."`: a tag scanner plus a binder
@@ -315,6 +318,9 @@ func c18Valid(c *core.Ctx) {
 				if !yield(c18ValCase{Kind: "var", Typ: v.typ, Text: v.text, Cons: k}) {
 					return
 				}
+				if !yield(c18ValCase{Kind: "var", Typ: v.typ, Text: v.text, Cons: k, Ptr: true}) {
+					return
+				}
 			}
 		}
 		for _, v := range vals {
@@ -342,6 +348,9 @@ func c18Valid(c *core.Ctx) {
 		for _, e := range []string{"${n1}-${n1}", "${n1}+${n2}", "${n1}*0", "${n2}-${n1}", "(${n1}+${n2})*2"} {
 			for _, k := range []string{"gt=0", "required", "min=1", "max=2", "eq=3", "ne=0"} {
 				if !yield(c18ValCase{Kind: "expr", Typ: "int", Text: e, Cons: k}) {
+					return
+				}
+				if !yield(c18ValCase{Kind: "expr", Typ: "int", Text: e, Cons: k, Ptr: true}) {
 					return
 				}
 			}
@@ -399,6 +408,20 @@ func c18Valid(c *core.Ctx) {
 					bound = cs.Text
 				}
 			}
+			ft := types[cs.Typ]
+			if cs.Ptr {
+				ft = reflect.PointerTo(ft)
+				pv := reflect.Zero(ft) // nothing bound: the field stays a nil pointer
+				if text != "" {
+					bv := reflect.ValueOf(bound)
+					if f, ok := bound.(float64); ok && cs.Typ == "int" {
+						bv = reflect.ValueOf(int(f))
+					}
+					pv = reflect.New(types[cs.Typ])
+					pv.Elem().Set(bv.Convert(types[cs.Typ]))
+				}
+				bound = pv.Interface()
+			}
 			verdict(func() error { return v.Var(bound, strings.ReplaceAll(cs.Cons, " ", ",")) })
 			tag := fmt.Sprintf(`value:"%s,validate=%s"`, text, cs.Cons)
 			if text == "" {
@@ -418,7 +441,7 @@ func c18Valid(c *core.Ctx) {
 					extra = []any{sc, &bo}
 				}
 			}
-			h = reflect.New(reflect.StructOf([]reflect.StructField{{Name: "X", Type: types[cs.Typ], Tag: reflect.StructTag(tag)}}))
+			h = reflect.New(reflect.StructOf([]reflect.StructField{{Name: "X", Type: ft, Tag: reflect.StructTag(tag)}}))
 		case "nested":
 			ptr := strings.HasSuffix(cs.Cons, "|ptr")
 			cons := strings.TrimSuffix(cs.Cons, "|ptr")
@@ -488,6 +511,15 @@ func c18Valid(c *core.Ctx) {
 			c.S.Nontrivial++
 		}
 		desc := fmt.Sprintf("%s validation, bound value %#v, constraint %q", cs.Kind, bound, cs.Cons)
+		if cs.Ptr {
+			desc = fmt.Sprintf("%s validation on a pointer field, bound to %s, constraint %q", cs.Kind, c18Deref(bound), cs.Cons)
+			// the field must hold what the reference was asked about
+			if got := c18Deref(h.Elem().Field(0).Interface()); o.Err == nil && got != c18Deref(bound) {
+				c.Outcome("pointer-binding-differs")
+				c.Report(key, "wrong-value", fmt.Sprintf("%s: the field holds %s after the start", desc, got), cs)
+				return
+			}
+		}
 		if cs.Kind == "user" {
 			desc += " (user-defined configuration tag bound by a user processor, " + cs.Binder + ")"
 		}
@@ -510,6 +542,17 @@ func c18Valid(c *core.Ctx) {
 			c.Sample(map[string]any{"case": cs, "bound": fmt.Sprintf("%#v", bound), "validator_rejects": reject, "start_failed": o.Err != nil})
 		}
 	})
+}
+
+func c18Deref(p any) string {
+	v := reflect.ValueOf(p)
+	if v.Kind() != reflect.Pointer {
+		return fmt.Sprintf("%#v", p)
+	}
+	if v.IsNil() {
+		return "a nil pointer"
+	}
+	return fmt.Sprintf("a pointer to %#v", v.Elem().Interface())
 }
 
 // ---- expression results that feed a unit-carrying text: durations
